@@ -5,6 +5,8 @@
 -/
 import PG.Spec.Format
 import PG.Lemmas.WriterInv
+import PG.Lemmas.FormatL
+import PG.Lemmas.FormatL2
 namespace PG
 
 /-- For every mapping in the representable domain (tables within the `u32` counters) the
@@ -16,17 +18,23 @@ namespace PG
     in which every referenced offset is a length-prefixed valid UTF-8 string or, where the
     format allows absence, the sentinel. -/
 theorem C09_wf (recs : List Record) (hr : ReprR recs) (hs : (Tables.build recs).Small) :
-    ∃ d, Format.decode (Cache.write recs) = some d ∧ Format.WF d = true := by
-  sorry
+    ∃ d, Format.decode (Cache.write recs) = some d ∧ Format.WF d = true :=
+  ⟨FL.decOf (Tables.build recs), FL.decode_bytes (Tables.build recs) (build_fits recs hs),
+    FL.wf_build recs hr hs⟩
 
 /-- the answer of the `FMT` protocol operation on written files -/
 theorem C09_check (recs : List Record) (hr : ReprR recs) (hs : (Tables.build recs).Small) :
     Format.check (Cache.write recs) = "ok" := by
-  sorry
+  obtain ⟨d, h1, h2⟩ := C09_wf recs hr hs
+  exact FL.check_ok _ d h1 h2
 
 /-- The library's own integrity self-test (`ProguardCache::test`) accepts every such file. -/
 theorem C09_selftest (recs : List Record) (hr : ReprR recs) (hs : (Tables.build recs).Small)
     (c : Cache) (hc : Cache.parse (Cache.write recs) = .ok c) : c.selfTest = true := by
-  sorry
+  have h := parse_bytes (Tables.build recs) (build_fits recs hs)
+  have e : Cache.write recs = (Tables.build recs).bytes := rfl
+  rw [e, h] at hc
+  cases hc
+  exact FL.selfTest_build recs hr hs
 
 end PG
